@@ -2,7 +2,6 @@ package main
 
 import (
 	"fmt"
-	"go/token"
 	"go/types"
 	"strings"
 
@@ -183,16 +182,9 @@ func runC22(c *Ctx) {
 		okItem := ld != nil && ld.Index == idx && render(ld.X) == "$1"
 		c.check(okItem, "C22.build-loop", name+": item list[i] is stored under the key of the same i", cs.Pos(), "Set(key(i), list[i])", "the item stored is "+render(val)+", the key is built from "+render(idx))
 		okRange := false
-		if bo, ok := idx.(*ssa.BinOp); ok && bo.Op == token.ADD {
-			if phi, ok := bo.X.(*ssa.Phi); ok && phi.Block() == h {
-				if _, ok := counterIncrements(phi, func(v ssa.Value) bool { k, ok := constInt(v); return ok && k == -1 }); ok {
-					if iff, ok := h.Instrs[len(h.Instrs)-1].(*ssa.If); ok {
-						if cmp, ok := iff.Cond.(*ssa.BinOp); ok && cmp.Op == token.LSS && render(cmp.Y) == "len($1)" {
-							okRange = true
-						}
-					}
-				}
-			}
+		if li, lb, ok := indexLoop(h); ok && li == idx {
+			rb := render(lb)
+			okRange = rb == "len($1)"
 		}
 		c.check(okRange, "C22.build-loop", name+": the loop covers indices 0..len(list)-1", cs.Pos(), "for idx := range list", "loop bounds differ")
 		tr, by := loopBypass(fn, h, cs.Instr)
